@@ -31,10 +31,12 @@ Check f14_refuted :
 
 Theorem f1_refuted :
   f1_class ContractExamples.P1 ContractExamples.q1 = true /\
+  guidance_repeats ContractExamples.slg1 = true /\
   ~ contract ContractExamples.P1 [] ContractExamples.q1 ContractExamples.slg1.
 Proof. exact ContractExamples.f1_refuted. Qed.
 Check f1_refuted :
   f1_class ContractExamples.P1 ContractExamples.q1 = true /\
+  guidance_repeats ContractExamples.slg1 = true /\
   ~ contract ContractExamples.P1 [] ContractExamples.q1 ContractExamples.slg1.
 
 Theorem placeholder_generic : forall (P : program) (env : list clause) (rho : list ty) (g : goal) (k : N) (t : ty),
